@@ -186,6 +186,24 @@ Definition run_intfns : dispatcher := fun op args =>
       end
     | _ => Some sx_bad
     end
+  else if opeq op "u-round" then
+    match args with
+    | [m; a; b] =>
+      match as_N m, as_rat a, as_rat b with
+      | Some m, Some a, Some b =>
+        match as_mode m with
+        | Some m => Some (sx_res sx_ratv (u_round m a b))
+        | None => Some sx_bad
+        end
+      | _, _, _ => Some sx_bad
+      end
+    | _ => Some sx_bad
+    end
+  else if opeq op "known-round-unit" then
+    match args with
+    | [a] => match as_rat a with Some a => Some (sx_bool (known_C10_round_unit_scale a)) | None => Some sx_bad end
+    | _ => Some sx_bad
+    end
   else if opeq op "spec-round" then
     match args with
     | [m; a] =>
